@@ -702,11 +702,32 @@ def check_mult_inverse(rep, prog, fn):
         rep.ok('R18e', call, fn, what)
 
 
+def builtin_number_instance(prog, fn):
+    """the enclosing class template / the function template is instantiated with built-in arithmetic types only"""
+    fr = fn.fref
+    tys = []
+    rt = prog.types[fr['rec_ty']] if isinstance(fr.get('rec_ty'), int) else None
+    if rt is not None:
+        tys += [a for a in (rt.get('targs') or []) if isinstance(a, int)]
+    tys += [a for a in (fr.get('targs') or []) if isinstance(a, int)]
+    for a in tys:
+        bt = prog.base_type(a) or {}
+        if not bt.get('arith'):
+            return False
+    return True
+
+
 def run_on(rep, prog):
     n = 0
     for fn in prog.functions:
         fr = fn.fref
         if fn.implicit or fn.body is None:
+            continue
+        if (fn.g.startswith('parmcb::fp::') or fn.g.startswith('parmcb::primes::') or fr.get('rec') == 'parmcb::SpVecFP') and \
+                not builtin_number_instance(prog, fn):
+            # instantiation with a class-type number (boost::multiprecision::cpp_int in test_spvecfp): its AST consists of expression-template
+            # operator calls the interval / truth-table analyses do not model; the same template text is decided on the built-in
+            # instantiations of the witness TU (instances are keyed by template, not by instantiation)
             continue
         if fn.g == 'parmcb::fp::ext_gcd':
             check_ext_gcd(rep, prog, fn)
